@@ -2,8 +2,10 @@ CFG = {
  'files': ['bmtree/allpaths.go', 'bmtree/decode.go'],
  'go': {'bmtree.AllPaths': 'bmtree.AllPaths',
         'bmtree.Decode': 'bmtree.Decode',
+        'bmtree.AllPaths/held': 'bmtree.AllPaths twice, both results read after the second call',
+        'bmtree.Decode/held': 'bmtree.Decode twice, both results read after the second call',
         'bmtree.Decode/roundtrip': 'bmtree.Decode(T, bitmap.Of(bmtree.PathToIndex of each node of a sub-list of the stored nodes))'},
- 'rule': 'AllPaths: every level mask T < 2^5 (thorough 2^6) x every (from,to) drawn from {every stored path word, +1, -1, 0, 2^64-1} '
+ 'rule': 'held variants first (two calls, then both results are read; heights 0..9 ascending). AllPaths: every level mask T < 2^5 (thorough 2^6) x every (from,to) drawn from {every stored path word, +1, -1, 0, 2^64-1} '
          '(quick: T in [2^5,2^6) with every candidate as from / as to / as both plus 6 random partners); random heights 0..30 '
          '(30 forced in 1/8) with full / leaf-only / sparse / dense / full-minus-one / leaf-plus-one / random masks and windows of at '
          'most 2^12 search values placed at 0, at the end, around search values with many trailing zeros, at 2^k and 2^k-1; from/to = '
